@@ -96,7 +96,14 @@ CHECKS = {
              "(decide) on the table regenerated from expression_parser.cpp / parseTernary on every run: ladder_is_spec "
              "(equals the specification table) and ladder_wf. Correspondence: every expression over all ordered operator "
              "pairs (triples in thorough) and random trees, printed with minimal, full and random redundant parentheses, "
-             "must evaluate to the reference value in the interpreter built from the working tree.",
+             "must evaluate to the reference value in the interpreter built from the working tree. The assignment level "
+             "(CbModel/LadderAssign.lean, mirroring parseAssignment: left = parseTernary(), right = parseAssignment(), lvalue "
+             "test) has its own theorems (CbProps/C02Assign.lean): every chain x1 op1 x2 op2 ... e, with operands parenthesised "
+             "anyhow, parses to the RIGHT-nested tree (parseAssign_of_derives), the whole right-hand side incl. ?: belongs to the "
+             "assignment, x = y = e is x = (y = e), a non-lvalue left side is rejected, fuel independence, parenthesis "
+             "invariance; obligations assign_ops_are_spec / assign_ops_awf on the operator list regenerated from "
+             "parseAssignment; end-to-end suite assignment-level (all 18 operators under a = b = x op y, chains, ?:, "
+             "assignment as operand / condition / argument).",
         note="Trusted: translator tools/translate/ladder.py (recognises the level functions' `left = next(); while "
              "(check..)` shape; anything else is reported as a failed obligation), the differential harness. Postfix "
              "chains beyond [ ] and ( ), casts, await/try are outside the ladder model. `a < b > (c)` with an identifier b "
